@@ -24,7 +24,7 @@ VALS = gen.DEFAULT_NOTE_VALUES
 def make_case(rng, i, tier):
     q = rng.random() < 0.5
     pc = gen.piece(rng, ntracks=rng.randint(1, 4), lens=VALS if q else None, multi_channel=True, ragged=True,
-                   sigs=[(4, 4), (3, 4), (6, 8), (2, 4), (5, 4), (2, 2), (7, 8), (12, 8), (5, 8), (7, 4), (9, 8), (3, 2), (1, 4), (11, 8),
+                   sigs=[(8, 8), (4, 4), (3, 4), (6, 8), (2, 4), (5, 4), (2, 2), (7, 8), (12, 8), (5, 8), (7, 4), (9, 8), (3, 2), (1, 4), (11, 8),
                          (4, 2), (3, 16), (15, 16), (1, 2), (1, 1)],
                    ongrid=(lambda x: x % 4 == 0 or x % 6 == 0) if (q and rng.random() < 0.5) else None)
     # make sure the meta track reaches far enough often (signatures beyond its end are still on its list)
